@@ -18,11 +18,12 @@ import DymVerif.Model.LockupChain
 
   Every op goes through `Lockup.cstep` (Model/LockupChain): the parameters are part of the state.
 
-  Observation = `<out> L=… last=… M=… B=… Q=… A=… S=… W=… O=… U=… t=… h=… P=…` (see `render`):
+  Observation = `<out> L=… last=… M=… B=… Q=… A=… S=… W=… O=… U=… t=… h=… P=… G=… I=…` (see `render`):
   locks (by-id queries), last id, module balances, actor balances, lock ids by account, accumulation
   at the probe durations, Σ locks per denom, Σ locks per denom with duration >= probe, Σ locks per
   owner and denom, ids of the locks that are due now, the parameters in force
-  (minDur:fee:allow-list).
+  (minDur:fee:allow-list), the ids of `GetPeriodLocks` in reference-walk order (`exportGenesis`),
+  the ids the end-time iterator of the EndBlocker yields.
 -/
 namespace DymVerif.Driver.C14
 open DymVerif DymVerif.Driver DymVerif.Lockup
@@ -76,7 +77,10 @@ def render (x : St) (o : Out) : String :=
   let O := join ";" (acts.map (fun a => join "," (dens.map (fun d => toString (lockedOwner s.locks a d)))))
   let U := join "." ((s.locks.filter (matured s.now)).map (fun l => toString l.id))
   let P := s!"{x.p.minDur}:{x.p.fee}:{join "," (x.p.allowed.map toString)}"
-  s!"{outStr o} L={L} last={s.lastId} M={M} B={B} Q={Q} A={A} S={S} W={W} O={O} U={U} t={s.now} h={s.height} P={P}"
+  -- `GetPeriodLocks` in the order it returns (= the exported genesis), the EndBlocker's iterator
+  let G := join "." ((exportGenesis s).locks.map (fun l => toString l.id))
+  let I := join "." ((s.locks.filter (matured s.now)).map (fun l => toString l.id))
+  s!"{outStr o} L={L} last={s.lastId} M={M} B={B} Q={Q} A={A} S={S} W={W} O={O} U={U} t={s.now} h={s.height} P={P} G={G} I={I}"
 
 def coinArg (f : List String) : Option (Option (Denom × Nat)) :=
   match f with
